@@ -55,11 +55,15 @@ def corrupt(r):
     if r["w"] == 1:
         r["ex"] = 1
         return r
-    if r["f"] in ("options_parse",) or (r["f"] == "parse_string" and not (r["g"] in ("int", "uint") and r["sk"] == "none")):
+    if r["f"] in ("options_parse", "grammar_parse_string") or (r["f"] == "parse_string" and not (r["g"] in ("int", "uint") and r["sk"] == "none")):
         r["out"], r["exn"] = "exception", "std::bad_alloc"
         return r
-    if r["f"] in ("extract_uint", "narrow"):      # two outcome classes are allowed for some arguments: use an exception
+    if r["f"] in ("extract_uint", "narrow", "io_get", "io_peek", "parse_help", "grammar_parse_string", "gmtime",
+                  "io_expect_int", "optional_from", "optional_to_pointer", "enum_array_at", "args"):      # two outcome classes are allowed for some arguments: use an exception
         r["out"], r["v"], r["exn"] = "exception", [], "std::out_of_range"
+        return r
+    if r["f"] == "optional_to_exception" and r["out"] == "exception":
+        r["exn"] = "std::logic_error"          # not the type the caller asked for
         return r
     if r["f"] == "path_fn":
         r["out"] = "nothing"
@@ -102,19 +106,27 @@ def count(ctx, recs):
 
 
 def report(ctx, bads):
+    """Returns the number of in-scope rejections.  Outcome-class disagreements are in scope (statement of C01);
+    value disagreements ("wrong-value") belong to the owning property and are observations here."""
+    n = 0
     for b, section, line in bads:
         rec = json.loads(line)
         for why in sorted(b["why"]):
             sig = "%s:%s:%s" % (PID, b["op"], why)
             short = rec if len(line) < 1500 else {k: rec[k] for k in rec if k not in ("rs", "xs")}
-            ctx.reject(sig, "the contract of %s does not allow the recorded outcome (%s): %s" % (b["op"], why, json.dumps(short)[:900]),
-                       {"sections": [section], "record": short})
+            what = "the contract of %s does not allow the recorded outcome (%s): %s" % (b["op"], why, json.dumps(short)[:900])
+            if why not in b.get("inscope", []):
+                c06.observe(ctx, sig, what)
+                continue
+            n += 1
+            ctx.reject(sig, what, {"sections": [section], "record": short})
+    return n
 
 
 def run_sections(ctx, binary, sections, tag):
     runs = record(ctx, binary, sections, tag)
     recs = c06.collect(ctx, runs, PID)
-    if not recs:
+    if len(recs) == 0:
         raise vlib.Infra("the harness recorded nothing")
     ctx.evaluations += count(ctx, recs)
     return recs
@@ -124,10 +136,9 @@ def run(ctx):
     binary = build()
     sections = sections_of(binary)
     recs = run_sections(ctx, binary, sections, "rec")
-    c06.sample(ctx, [x for x in recs if '"w":2' in x[1]][::97] + recs[:50])
+    c06.sample(ctx, recs)
     bads = c06.judge(ctx, recs, JUDGE, "c01")
-    report(ctx, bads)
-    if not bads:
+    if report(ctx, bads) == 0:
         # vacuity guard of the judge (presupposes correct records: only when all were accepted)
         c06.selftest(ctx, recs, JUDGE, "c01self", corrupt, 60)
     ctx.traces_validated += ctx.extra.get("judge_chunks", 0)
